@@ -151,14 +151,40 @@ def _gen_window(rng, step, keys):
     return v, h, rng.random() < 0.6
 
 
+def _chord_rows_estimate(rows, keys, options):
+    """number of rows the constructor builds before np.unique (bounds the size of the Coq literal / model run)"""
+    w = len(rows[0])
+    n = len(rows)
+    mx = [max(r[k] for r in rows) for k in range(w)]
+    if options & 4:
+        hi = 1
+        for k in range(w):
+            hi *= max(0, keys + 1 - min(r[k] for r in rows))
+        n += hi
+        if hi:
+            mx = [max(m, keys) for m in mx]
+    if options & 2:
+        lo = 1
+        for m in mx:
+            lo *= max(0, m)
+        n += lo
+    return n
+
+
 def _gen_chord_spec(rng, size, keys, wrong=False):
     w = size if not wrong else rng.choice([1, size + 1, max(1, size - 1)])
     nrows = rng.choice([1, 1, 1, 2, 3])
-    rows = [[rng.choice([1, 1, 2, 2, 3, 4]) for _ in range(w)] for _ in range(nrows)]
+    top = max(1, min(4, keys))
+    rows = [[min(top, rng.choice([1, 1, 2, 2, 3, 4, top, top])) if rng.random() < 0.97 else keys + 1 for _ in range(w)]
+            for _ in range(nrows)]
+    options = rng.choice([0, 0, 0, 1, 2, 3, 4, 5, 6, 7])
+    for drop in (4, 2):
+        if _chord_rows_estimate(rows, keys, options) > 160:
+            options &= ~drop
     inp = rows
     if nrows == 1 and rng.random() < 0.2:
         inp = rows[0]           # 1-D: one row
-    return {"rows": inp, "keys": keys, "options": rng.choice([0, 0, 0, 1, 2, 3, 4, 5, 6, 7]), "exclude": rng.random() < 0.2}
+    return {"rows": inp, "keys": keys, "options": options, "exclude": rng.random() < 0.2}
 
 
 def _gen_combo_spec(rng, size, keys, wrong=False):
@@ -323,7 +349,7 @@ def _fout(f, typ=False):
     return {"w": int(ar.shape[1]), "ar": rows, "inv": bool(f.invert_filter), "keys": int(f.keys)}
 
 
-_EXC = (ValueError, IndexError)
+_EXC = (ValueError, IndexError, TypeError)
 
 
 def execute(case):
@@ -378,13 +404,19 @@ def execute(case):
     if not req:
         return out
     pc = PtnCombo(groups)
-    try:
-        if req["t"] == "combos":
+    if req["t"] == "combos":
+        try:
             cf = _mk_chord(req["chord"]) if req["chord"] else None
             kf = _mk_combo(req["combo"]) if req["combo"] else None
             tf = _mk_type(req["type"]) if req["type"] else None
-            out["filters"] = {"chord": _fout(cf) if cf else None, "combo": _fout(kf) if kf else None,
-                              "type": _fout(tf, True) if tf else None}
+        except _EXC as e:
+            # a constructor rejected its arguments (covered by the create_* cases): nothing to combine
+            out["req_dropped"] = type(e).__name__ + ": " + str(e)[:80]
+            return out
+        out["filters"] = {"chord": _fout(cf) if cf else None, "combo": _fout(kf) if kf else None,
+                          "type": _fout(tf, True) if tf else None}
+    try:
+        if req["t"] == "combos":
             res = pc.combinations(size=req["size"], make_size2=req["ms2"],
                                   chord_filter=cf.filter if cf else None,
                                   combo_filter=kf.filter if kf else None,
@@ -488,7 +520,7 @@ def emit(case, out):
         return str(index[json_key(r)])
     dfl = F.lst([_note(r, k) for r in df])
     groups = "None" if out["groups"] is None else "(Some " + F.lst([F.lst([rid(r) for r in g]) for g in out["groups"]]) + ")"
-    req = case.get("req")
+    req = _req(case, out)
     if not req or out["groups"] is None:
         rq = "RNone"
     elif req["t"] == "combos":
@@ -502,6 +534,10 @@ def emit(case, out):
         [F.lst([F.lst([rid(x) for x in row]) for row in ar]) for ar in out["combos"]]) + ")"
     h = "None" if case["h"] is None else f"(Some {_zi(case['h'])})"
     return f"(CPipe {inp} {dfl} {_z(case['v'], k)} {h} {_b(case['aj'])} {groups} {rq} {combos})%Z"
+
+
+def _req(case, out):
+    return None if out.get("req_dropped") else case.get("req")
 
 
 def json_key(r):
@@ -602,7 +638,7 @@ def _expected(case, out, chord_any):
 def _in_domain(case, out):
     if Fr(*case["v"]) < 0 or (case["h"] is not None and case["h"] < 0) or out["groups"] is None:
         return False
-    req = case.get("req")
+    req = _req(case, out)
     if not req:
         return True
     cols = [r[0] for g in out["groups"] for r in g]
@@ -638,7 +674,7 @@ def py_oracle(case, out):
         return None
     if out["groups"] is None or not _py_group_ok(case, out):
         return False
-    if not case.get("req") or not _in_domain(case, out):
+    if not _req(case, out) or not _in_domain(case, out):
         return True
     return _combos_match(case, out, chord_any=False)
 
@@ -651,7 +687,7 @@ def _uses_chord_filter(case):
 def classify(case, out, kind):
     """stable key of the one known defect class: the ONLY deviation is that chunks were admitted by numpy's
     element-wise `data in ar` instead of row membership"""
-    if kind != "spec" or case["kind"] != "pipe" or out.get("groups") is None:
+    if kind != "spec" or case["kind"] != "pipe" or out.get("groups") is None or not _req(case, out):
         return None
     try:
         if (_uses_chord_filter(case) and _py_group_ok(case, out) and _in_domain(case, out)
